@@ -264,13 +264,43 @@ class Account(object):
             self.world.observer.on_mark(self, "restart")
         self.start()
 
-    def reinstall(self):
-        """Fresh identity + fresh prekeys under the same number (the axolotl store is wiped)."""
+    def own_identity_row(self):
+        """(public key bytes, private key bytes) of this account's own identity, read from its store through a
+        read-only connection of the harness's own (identities table, row -1: the state the C17 anchors name)."""
+        import sqlite3
+        p = os.path.join(self.profile_dir(), "axolotl.db")
+        c = sqlite3.connect("file:%s?mode=ro" % p, uri=True)
+        try:
+            row = c.execute("SELECT public_key, private_key FROM identities WHERE recipient_id = -1").fetchone()
+        finally:
+            c.close()
+        return (bytes(row[0]), bytes(row[1])) if row else None
+
+    def reinstall(self, clone_of=None):
+        """Fresh identity + fresh prekeys under the same number (the axolotl store is wiped).
+        clone_of=<Account>: the fresh installation carries that account's IDENTITY KEY PAIR (the same installation
+        moved to this number, or a copied key): the library creates the new store (own registration id), the own
+        identity row is then overwritten with the other account's key pair before the stack starts; prekeys and
+        the signed prekey are generated by the library on start, signed by that identity, and uploaded under this
+        account's number.  Two contacts of a third account then hold the same identity key."""
         d = self.profile_dir()
+        donor = clone_of.own_identity_row() if clone_of is not None else None
         self.stop()
         for fn in os.listdir(d):
             if fn.startswith("axolotl.db"):
                 os.remove(os.path.join(d, fn))
+        if donor is not None:
+            import sqlite3
+            from yowsup.axolotl.store.sqlite.liteaxolotlstore import LiteAxolotlStore
+            p = os.path.join(d, "axolotl.db")
+            LiteAxolotlStore(p)                    # tables + a fresh own identity and registration id, committed
+            close_store_connections(p)
+            c = sqlite3.connect(p)
+            try:
+                c.execute("UPDATE identities SET public_key = ?, private_key = ? WHERE recipient_id = -1", donor)
+                c.commit()
+            finally:
+                c.close()
         self.generation += 1
         self.trace.append(("mark", ("reinstall", self.generation)))
         if self.world.observer:
